@@ -17,7 +17,7 @@ ALL = {
             "Exploration: associativity, unit, interchange, twist naturality, self-inverse symmetry and both hexagons decided by a complete isomorphism search on every generated instance."),
     "C04": ("runtime monitor on dagger / spider / half_spider (strict and lax): raw equality for swap and involution, model cospan composition + isomorphism for fusion, exact rejection condition",
             "Exploration: dagger laws, spider fusion against union-find-free cospan composition, spiders-as-identities/symmetries and the exact None condition on every generated cospan."),
-    "C05": ("runtime monitor: deep well-formedness walker over every diagram returned by >=30 kinds of public operation + accept/reject oracle on raw data at the boundaries of each checked constructor",
+    "C05": ("runtime monitor: deep well-formedness walker over every diagram returned by 36 kinds of public operation + accept/reject oracle on raw data at the boundaries of each checked constructor, accepted values compared with the data handed in",
             "Exploration: every returned diagram is walked field by field and its promised type checked; every checked constructor is driven at max=target-1/target/target+1, sum+-1, count+-1."),
     "C06": ("runtime monitor on the FiniteFunction / SemifiniteFunction API against functions-as-Vec computed by loops; coequalizer partition equality against naive closure; universal-map existence oracle; exhaustive small scope",
             "Exploration + exhaustive small scope (all tables with source<=3, target<=3): every public method compared with its set-theoretic meaning."),
@@ -27,19 +27,19 @@ ALL = {
             "Exploration: every operation of IndexedCoproduct/Operations re-establishes the size invariant and equals the list-of-lists result; iterators report the exact remaining count after every step."),
     "C09": ("runtime monitor on lax quotient(): snapshot of all public fields before/after, flood-fill component oracle, Ok-iff-uniform, idempotence, atomic failure; call histories with a shadow model in lock-step",
             "Exploration: every executed quotient (single calls and histories) is bracketed by state snapshots and decided against naive connected components."),
-    "C10": ("runtime monitor on from_strict/to_strict round trips (raw equality) and on lax vs strict categorical operations (strictify + isomorphism); in-place variants compared with pure ones by derived equality",
+    "C10": ("runtime monitor on from_strict/to_strict round trips (raw equality) and on lax vs strict categorical operations (strictify + isomorphism); lax_compose compared field by field with juxtaposition + boundary pairs; in-place variants compared with pure ones on raw fields",
             "Exploration: lossless conversion and commutation of strictification with compose/lax_compose/tensor/identity/twist/spider/dagger/singleton on every generated pair."),
-    "C11": ("runtime monitor on builder histories: list-based shadow model replayed step by step, every public field and return value compared after each call; rejected deletions run on a clone; serde JSON round trip and key set",
+    "C11": ("runtime monitor on builder histories: list-based shadow model replayed step by step, every public field and return value compared after each call; rejected deletions run on a clone; serde JSON round trip, key set and the README example with enum labels",
             "Exploration over histories: 30-60 step editing sequences with valid/duplicate/out-of-range arguments refine a plain list model; persisted JSON uses the documented field names."),
-    "C12": ("runtime monitor on Functor::map_arrow (strict trait and lax trait via dyn_functor) against generator-wise substitution on the plain model + isomorphism; functoriality laws through the API",
+    "C12": ("runtime monitor on Functor::map_arrow (strict trait and lax trait via dyn_functor) against generator-wise substitution on the plain model + isomorphism (also on lax arguments with pending unifications); functoriality laws through the API",
             "Exploration over parameterised functor families (object image length 0-3, operation image single/composite/spider/empty) crossed with generated diagrams."),
     "C13": ("runtime monitor on try_define_map_arrow / map_arrow_witness: refusal iff pending unifications, quotiented result isomorphic to strict path and model, witness segment/label/interface oracle",
             "Exploration: native lax functor path compared with the strict path and the model on every generated quotient-free diagram; witness checked through the quotient map."),
     "C14": ("runtime monitor on Optic::map_arrow/adapt and lax map_adapted: exact type lists, model lens + isomorphism for single operations, functoriality, monogamy, and evaluation of the adapted optic against an independent reverse-mode derivative over Z/2^64",
             "Exploration: typing, structure and functoriality on generated diagrams; derivative semantics on random monogamous acyclic polynomial circuits with random u64 inputs."),
-    "C15": ("runtime monitor on layer / layered_operations and (via verif-hooks) converse / adjacency / indegree / kahn: dependency relation by loops, cyclic set by stripping cross-checked with transitive closure, layering clauses",
+    "C15": ("runtime monitor on layer / layered_operations and (via verif-hooks) converse / adjacency / (relative) indegree / kahn: dependency relation by loops, cyclic set by stripping cross-checked with transitive closure, layering clauses",
             "Exploration: dense small diagrams (multiplicities 3-16 common), cyclic, self-dependent, cycle-with-tail, zero-arity, raw multigraphs, 3*10^3-operation chain; panics are recorded outcomes."),
-    "C16": ("runtime monitor on eval with a logging apply callback: exactly-once + dependency-order event-log check, reference interpreter on the plain model, renumbering invariance, refusal iff cyclic",
+    "C16": ("runtime monitor on eval with a logging apply callback: exactly-once + dependency-order event-log check, reference interpreter on the plain model, renumbering invariance, refusal iff cyclic, u64 and String values",
             "Exploration: circuits over a test signature with fan-out, multi-output gates and inputs at different depths; every batch passed to the callback is logged and checked."),
     "C17": ("runtime monitor on is_acyclic / is_monogamous / in_degree / out_degree: DFS and counting definitions on the plain model, outcome (value or panic) recorded per build profile",
             "Exploration: total, exact answers on dense small diagrams incl. isolated/dangling nodes, repeated incidences and many parallel connections, in a checked and a release build."),
@@ -47,7 +47,7 @@ ALL = {
             "Exploration: natural arrows, each single perturbation, junk and mistyped maps; convexity on inclusions into cyclic graphs with parallel/repeated incidences."),
     "C19": ("runtime monitor on var::build / forget / forget_monogamous: expression DAG evaluation vs eval of the built term (callback log), model substitution of uniform var edges + isomorphism, totality",
             "Exploration over programs: random expression DAGs with sharing and arbitrary lax terms with var hyperedges of every arity and label mix (incl. source-less, differently labelled targets)."),
-    "C20": ("differential runtime monitor: the same strict-module calls at VecKind and at an adversarial, seeded, contract-conforming ArrayKind defined in the harness (self-checked against the C07 oracle); results compared up to isomorphism / equality",
+    "C20": ("differential runtime monitor: the same strict-module calls at VecKind and at an adversarial, seeded, contract-conforming ArrayKind defined in the harness (self-checked against the C07 oracle); results (compose, functor, optic, layer, layered_operations, eval, predicates, morphism tests) compared up to isomorphism / equality",
             "Exploration over configurations: argsort tie order, component numbering, sparse-bincount key order, scatter filler and write order all resolved differently per seed; divergence counters must be non-zero."),
 }
 
